@@ -365,7 +365,9 @@ func c04closeVerdict(c *Ctx, r *Report, rule string) {
 		pred func(v ssa.Value) bool
 	}
 	needs := []need{
-		{"sticky decode error (d.err)", func(v ssa.Value) bool { return dependsOn(v, loadOf(".err")) && !dependsOn(v, callOf("lzhuf.bitReader.Err")) }},
+		{"sticky decode error (d.err)", func(v ssa.Value) bool {
+			return dependsOn(v, loadOf(".err")) && !dependsOn(v, callOf("lzhuf.bitReader.Err"))
+		}},
 		{"bit reader error", func(v ssa.Value) bool { return dependsOn(v, callOf("lzhuf.bitReader.Err")) }},
 		{"CRC-16 (header.crc vs running CRC)", func(v ssa.Value) bool {
 			return dependsOn(v, loadOf(".header.crc")) && dependsOn(v, callOf("lzhuf.crcWriter.Sum"))
